@@ -44,7 +44,13 @@ class SW:
             h = Rat.sym("h", "pos")
             self.x = [Rat.sym("x0") + h * i + sh for i in range(n_t)]
         else:
-            self.x = [Rat.sym(f"x{i}") + sh for i in range(n_t)]
+            # generic strictly increasing items: x0 and positive gaps d1, d2, ... (so every interval length has a decided sign)
+            self.x = []
+            cur = Rat.sym("x0") + sh
+            for i in range(n_t):
+                if i:
+                    cur = cur + Rat.sym(f"d{i}", "pos")
+                self.x.append(cur)
         D = prog.cls("Dimension")
         self.tdim = self.it.construct(D, [], dict(name="Time", letter="t", items=list(self.x)))
         self.ldims = [self.it.construct(D, [], dict(name=l * 2, letter=l, items=[f"{l}{j}" for j in range(LABEL_SIZES[l])])) for l in self.labels]
@@ -77,6 +83,8 @@ class SW:
 
     def param(self, name, over, version="A", sign="pos"):
         """a lifetime parameter: 'number' | 'all' (cohort x labels) | 'labels' | 'time'"""
+        if version == "Neg":        # the inadmissible version: one sign per symbol, whoever builds it (history step or reference object)
+            sign = "neg" if name in ("mean", "weibull_shape") else "pos"
         if over == "number" and self.prm_values and version in self.prm_values:
             v = rat(self.prm_values[version])
             return v, (lambda m, l, _v=v: _v)
